@@ -884,3 +884,48 @@ def qforall(vs, body, pats=()):
         except z3.Z3Exception:
             pass       # e.g. a pattern over a Store term: let the solver choose
     return z3.ForAll(vs, body)
+
+
+def ite_value(cases, ty):
+    """the value of type `ty` that equals the concrete Python value v of the first (cond, v) in `cases` whose
+    condition holds (a canonical default of the type when none does)"""
+    if isinstance(ty, TStr):
+        t = z3.StringVal("")
+        for cond, v in reversed(cases):
+            t = z3.If(cond, z3.StringVal(v), t)
+        return VStr(t)
+    if isinstance(ty, TInt):
+        t = z3.IntVal(0)
+        for cond, v in reversed(cases):
+            t = z3.If(cond, z3.IntVal(int(v)), t)
+        return VInt(t)
+    if isinstance(ty, TBool):
+        t = z3.BoolVal(False)
+        for cond, v in reversed(cases):
+            t = z3.If(cond, z3.BoolVal(bool(v)), t)
+        return VBool(t)
+    if isinstance(ty, TTuple):
+        return VTuple([ite_value([(c, v[k]) for c, v in cases], t) for k, t in enumerate(ty.items)])
+    if isinstance(ty, TList):
+        n = z3.IntVal(0)
+        for cond, v in reversed(cases):
+            n = z3.If(cond, z3.IntVal(len(v)), n)
+
+        def get(i, _cases=cases, _t=ty.elem):
+            return ite_value([(z3.And(c, i == j), v[j]) for c, v in _cases for j in range(len(v))], _t)
+        return VList(n, get=get, et=ty.elem)
+    raise Unsupported("concrete constant of type %r" % (ty,))
+
+
+def dict_from_concrete(d, vt):
+    """a Python dict constant with string keys as a symbolic read-only dict (exact content)"""
+    items = list(d.items())
+    if not all(isinstance(k, str) for k, _ in items):
+        raise Unsupported("dict constant with non-string keys")
+
+    def has(k):
+        return VBool(z3.Or(*[k == z3.StringVal(key) for key, _ in items])) if items else VBool(z3.BoolVal(False))
+
+    def val(k):
+        return ite_value([(k == z3.StringVal(key), v) for key, v in items], vt)
+    return VDict(STR, vt, has, val)
